@@ -853,6 +853,13 @@ def run_contract(contract, tier="quick", findings=None, want_sample=False):
                 a["backend"] |= bes
                 continue
             if r == "unknown":
+                # the solver neither proved nor refuted: look for a concrete failing input of
+                # this clause on the REAL code; only a replayed failure makes it a violation
+                sw = _sample_witness(contract, c, name, findings, tries=24)
+                if sw is not None:
+                    a["status"] = "violated"
+                    res["violations"].append({"obligation": contract.id + "/" + name, "path": pi, "solver": "unknown; failing input found by sampling and replayed on the real code", "replayed": True, "witness": sw, "models_tried": 0, "solver_output": "solver unknown/timeout (%d ms)" % tmo})
+                    continue
                 a["status"] = "undecided" if a["status"] == "discharged" else a["status"]
                 res["undecided"].append({"obligation": contract.id + "/" + name, "reason": "solver unknown/timeout (%d ms) on path %d" % (tmo, pi)})
                 continue
